@@ -13,6 +13,7 @@ import (
 func init() {
 	vpRegister("VPH_C15_stream", VPH_C15_stream)
 	vpRegister("VPH_C15_rawbytes", VPH_C15_rawbytes)
+	vpRegister("VPH_C15_write_lengths", VPH_C15_write_lengths)
 }
 
 type vpConn struct {
@@ -239,4 +240,33 @@ func VPH_C15_rawbytes() {
 	} else {
 		vpReach("no-reply")
 	}
+}
+
+// VPH_C15_write_lengths: a WRITE whose count and opaque-data length word are independent arbitrary
+// 32-bit values (with at most 8 bytes of data actually present): no panic, a well-formed reply, and
+// nothing is allocated by a client-supplied length before it has been checked against the
+// transfer size (allocation obligation: every make() is bounded by 64 KiB on all values).
+func VPH_C15_write_lengths() {
+	fs := vpStdTree()
+	env := vpServer(fs, ExportOptions{})
+	hx := env.handleFor("/d/x")
+	count, dlen := vpU32("count"), vpU32("datalen")
+	var b vpBuf
+	b.fh(hx).u64(vpU64("offset")).u32(count).u32(vpU32("stable")).u32(dlen).raw(vpBytes("data", 8))
+	var reply *RPCReply
+	vpAllocGuard(65536, func() { reply = env.call(NFSPROC3_WRITE, b.Bytes()) })
+	vpAssert(reply != nil, "write-answered")
+	rd := &vpRd{b: vpReplyBytes(reply)}
+	st := rd.u32()
+	rd.wccData()
+	if st == NFS_OK {
+		vpReach("write-ok")
+		n := rd.u32()
+		rd.u32()
+		rd.u64()
+		vpAssert(n <= 8, "no-more-stored-than-was-sent")
+	} else {
+		vpReach("write-refused")
+	}
+	vpAssert(rd.done(), "write-reply-well-formed")
 }
